@@ -112,6 +112,15 @@ def concatCmd (maxHeader : Nat) (outVersion : Nat) (srcs : List Bytes) : Except 
     if outVersion = 2 then .ok (pragma ++ ({ V2Header.new payload.length with indexOffset := 0 } : V2Header).bytes ++ payload)
     else .ok payload
 
+/-- `car get-block`: the read-only blockstore over the file (default options), `Get` of the CID. -/
+def getBlockCmd (src : Bytes) (c : Cid) : Except Err Bytes :=
+  match openReadOnly .blockstore {} .auto src with
+  | .error e => .error e
+  | .ok r => match r.step {} (.get c) with
+    | .data d => .ok d
+    | .err e => .error e
+    | _ => .error .other
+
 /-- `car list` (plain): the CIDs of the sections in order, through the block reader with default limits;
     anything but a clean end is an error. -/
 def listCmd (H : HashFn) (src : Bytes) : Except Err (List Cid) :=
